@@ -65,7 +65,7 @@ class ValueGen:
             return {'dec': b.hex()}
         if lg == 'big-decimal':
             n = r.choice([0, 1, -1, 127, 128, -128, -129, 10 ** 30, -10 ** 30 + 7]) if r.random() < 0.5 else r.randint(-10 ** 12, 10 ** 12)
-            return {'bigdec': [str(n), r.choice([0, 1, 2, 5, 18, 40, -3])]}
+            return {'bigdec': [str(n), r.choice([0, 1, 2, 5, 18, 40, -3, 63, 64, 8191, 8192, -8193, 2 ** 31 - 1, 2 ** 31, -2 ** 31, -2 ** 31 - 1, 2 ** 63 - 1, -2 ** 63])]}
         if lg == 'uuid':
             return {'uuid': r.choice([bytes(16), b'\xff' * 16, self.rbytes(16), self.rbytes(16)]).hex()}
         if lg == 'duration':
